@@ -329,7 +329,7 @@ impl Schema {
                 multiple_of: match (n1.multiple_of, n2.multiple_of) {
                     (None, None) => None,
                     (None, Some(m)) | (Some(m), None) => Some(m),
-                    (Some(m1), Some(m2)) => Some(m1.lcm(&m2)),
+                    (Some(m1), Some(m2)) => Some(m1.try_lcm(&m2)?),
                 },
             }),
 
